@@ -442,16 +442,6 @@ theorem C20_scripted_minimiser_meets_contract (cands : List (List Ext)) :
     MinimiserContract (scriptedMinimise cands) :=
   scriptedMinimise_contract Ext.le_refl' Ext.le_total' Ext.le_trans' cands
 
-/-- what `fitDriver` reports is the wrapper chain around the minimiser -/
-theorem fitDriver_fit {α : Type} [LE α] [DecidableLE α] (sb dc : Bool) (y0 : Option (List (String × α)))
-    (model : ModelVals α) (p0 : List (String × α)) (cands : List (List α)) (fail : Bool)
-    (residual : List (String × α) → α) :
-    (fitDriver sb dc y0 model p0 cands fail residual).fit =
-      fitWrap (localScipyCall (if fail then fun _ _ => none else scriptedMinimise cands)) residual p0 := by
-  unfold fitDriver
-  simp only
-  split <;> simp_all
-
 /-- FIT DRIVER HONEST, no hypothesis left: with the scripted minimiser a successful fit reports the residual at the
 reported parameters, it is never worse than the start's (residuals may be `inf`), names are `p0`'s -/
 theorem C20_fit_driver_honest (sb dc : Bool) (y0 : Option (List (String × Ext))) (model : ModelVals Ext)
@@ -580,6 +570,52 @@ theorem C20_returned_model_at_best {α : Type} [LE α] [DecidableLE α] (dc : Bo
   simp only [C20_fit_sets_best]
   unfold fitDriver
   simp only [h, FitEnv.evalResidual, Bool.false_eq_true, if_false, if_true]
+
+/-- THE RETURNED MODEL HOLDS THE REPORTED VALUES (value level, no side condition): after a successful fit with the
+generated shape (`_set_best`), every fitted name that is a parameter of the model has in `Fit.model` exactly the value
+reported in `best_pars`, and every fitted name that is a variable has it as its initial condition — whatever `y0`, the
+candidates and the order of evaluation were -/
+theorem C20_returned_model_holds_best (dc : Bool) (y0 : Option (List (String × Ext))) (model : ModelVals Ext)
+    (p0 : List (String × Ext)) (cands : List (List Ext)) (residual : List (String × Ext) → Ext) (f : Fit Ext)
+    (h : (fitDriver Gen.fitSetsBest dc y0 model p0 cands false residual).fit = some f) :
+    (∀ n ∈ p0.map (·.1), hasName model.pars n = true →
+      (fitDriver Gen.fitSetsBest dc y0 model p0 cands false residual).work.pars.lookup n = f.bestPars.lookup n) ∧
+    (∀ n ∈ p0.map (·.1), hasName model.vars n = true →
+      (fitDriver Gen.fitSetsBest dc y0 model p0 cands false residual).work.vars.lookup n = f.bestPars.lookup n) := by
+  have hnames := (C20_fit_driver_honest Gen.fitSetsBest dc y0 model p0 cands residual f h).2.2
+  have hwork := C20_returned_model_at_best dc y0 model p0 cands false residual f h
+  simp only at hwork
+  rw [hwork, fitDriver_false_work]
+  generalize hpN : (routeNames model (p0.map (·.1))).1 = pN
+  generalize hvN : (routeNames model (p0.map (·.1))).2 = vN
+  generalize hlast : ((FitEnv.start dc model).run (fun m u => (applyUpdates y0 pN vN m u).getD m)
+    (scriptedTrace (p0.map (·.1)) cands (p0.map (·.2)))).work = last
+  have hlnames : ∀ n, hasName last.pars n = hasName model.pars n ∧ hasName last.vars n = hasName model.vars n := by
+    intro n
+    have := FitEnv.run_work_names y0 pN vN n (scriptedTrace (p0.map (·.1)) cands (p0.map (·.2))) (FitEnv.start dc model)
+    rw [hlast] at this
+    simpa [FitEnv.start] using this
+  have hroute := fun n => C20_name_routing model (p0.map (·.1)) n
+  have hsomeP : ∀ p ∈ pN, (f.bestPars.lookup p).isSome = true := by
+    intro p hp
+    have : p ∈ p0.map (·.1) := by rw [← hpN] at hp; exact ((hroute p).1.mp hp).1
+    exact lookup_isSome_of_mem_keys _ _ (by rw [hnames]; exact this)
+  have hsomeV : ∀ p ∈ vN, (f.bestPars.lookup p).isSome = true := by
+    intro p hp
+    have : p ∈ p0.map (·.1) := by rw [← hvN] at hp; exact ((hroute p).2.mp hp).1
+    exact lookup_isSome_of_mem_keys _ _ (by rw [hnames]; exact this)
+  obtain ⟨pars, hpars⟩ := Option.isSome_iff_exists.mp (setAll_isSome f.bestPars pN last.pars hsomeP)
+  obtain ⟨vars, hvars⟩ := Option.isSome_iff_exists.mp (setAll_isSome f.bestPars vN last.vars hsomeV)
+  have happ : applyUpdates none pN vN last f.bestPars = some ⟨pars, vars⟩ := by
+    simp [applyUpdates, hpars, hvars]
+  have hreach := C20_updates_reach_the_model none pN vN last ⟨pars, vars⟩ f.bestPars happ
+  rw [happ]
+  simp only [Option.getD_some]
+  refine ⟨fun n hn hm => ?_, fun n hn hm => ?_⟩
+  · have hin : n ∈ pN := by rw [← hpN]; exact (hroute n).1.mpr ⟨hn, hm⟩
+    exact hreach.1 n hin (by rw [(hlnames n).1]; exact hm)
+  · have hin : n ∈ vN := by rw [← hvN]; exact (hroute n).2.mpr ⟨hn, hm⟩
+    exact hreach.2.1 n hin (by rw [(hlnames n).2]; exact hm)
 
 /-- ENSEMBLE: failed fits are dropped, the others are kept in order -/
 theorem C20_ensemble_keeps_successes {α : Type} (fits : List (Option (Fit α))) (f : Fit α) :
